@@ -24,9 +24,9 @@ ASSUMPTIONS = [
     "reads appear only on objects no other thread uses (shared-object reads are C14)",
 ]
 CLASSES = ["BufferedJSONDict", "BufferedJSONList", "MemoryBufferedJSONDict", "MemoryBufferedJSONList"]
-PROGRAMS = {"quick": 14, "thorough": 240}
+PROGRAMS = {"quick": 12, "thorough": 240}
 SHARD_TIMEOUT = {"quick": 600, "thorough": 5400}
-BUDGET = {"quick": 35, "thorough": 1500}
+BUDGET = {"quick": 30, "thorough": 1500}
 
 DICT_OPS = ["setitem", "delitem", "update", "setdefault"]
 LIST_OPS = ["append", "extend", "insert"]
